@@ -866,7 +866,7 @@ def gen_cp(rnd, bmp=False, nonzero=False):
 
 
 def leaf_paths(t, mode, path=()):
-    """Paths to integer-like leaves (fixed-width int, enum, pointer) that are not bit-fields and not inside unions."""
+    """Paths to integer-like leaves (fixed-width int, enum, pointer, bit-field) that are not inside unions."""
     k = t["k"]
     if k in ("int", "enum", "ptr"):
         yield path, t
@@ -874,6 +874,9 @@ def leaf_paths(t, mode, path=()):
         for i, f in enumerate(t["fields"]):
             if not f["bits"]:
                 yield from leaf_paths(f["type"], mode, path + (("f", i),))
+            else:
+                # a bit-field is an integer field of f["bits"] bits (finding F36)
+                yield path + (("f", i),), {"k": "bits", "bits": f["bits"], "type": f["type"]}
     elif k == "arr" and t["elem"]["k"] not in ("char", "wchar"):
         yield from leaf_paths(t["elem"], mode, path + (("e", 0),))
 
@@ -898,6 +901,13 @@ def set_leaf(v, path, new):
 
 def misfit(rnd, leaf, mode):
     """An integer that does not fit the leaf type, wrapped as that leaf's value kind."""
+    if leaf["k"] == "bits":
+        n = rnd.choice([1 << leaf["bits"], (1 << leaf["bits"]) + 3, -1])
+        if leaf["type"]["k"] == "enum":
+            if n < 0:
+                n = 1 << leaf["bits"]
+            return {"k": "enum", "cls": leaf["type"]["name"], "v": pint(n)}
+        return pint(n)
     if leaf["k"] == "ptr":
         size, signed = mode["ptr"], False
     elif leaf["k"] == "enum":
